@@ -88,3 +88,44 @@ Theorem C07_pst13_no_rng_aborts :
     (mdeg p <= s)%nat -> vars_ok nv p = true -> ph_commit1 nv s betas p (Some hb) None = Panic.
 Proof. exact @ph_commit1_no_rng. Qed.
 Print Assumptions C07_pst13_no_rng_aborts.
+
+(* Hyrax: one fresh blinder per matrix row at commit (the first dim draws of the RNG tape); dim + 3 fresh scalars per opened
+   polynomial; the polynomials of one opening take consecutive, disjoint slices of the tape.  IPA: the commitment's randomness is
+   what was drawn - one draw per hiding commitment, two with a degree bound, none (and zero randomness) without hiding; a hiding
+   request without an RNG does not produce a commitment *)
+From PC Require Import Schemes.LC Schemes.MLPC Schemes.Hyrax Schemes.IPA Proofs.HidingDraws.
+Theorem C07_hyrax_commit_draws :
+  forall (FO : FieldOps) keylen nv evals tape rows st k,
+    h_commit1 keylen nv evals tape = Ok (rows, st, k) ->
+    k = (2 ^ (nv / 2))%nat /\ hs_rand st = firstn k tape /\ length (hs_rand st) = k.
+Proof. exact @hyrax_commit_draws. Qed.
+Print Assumptions C07_hyrax_commit_draws.
+
+Theorem C07_hyrax_open_draws :
+  forall (FO : FieldOps) keylen point st tape c pf k,
+    h_open1 keylen point st tape c = Ok (pf, k) ->
+    k = (2 ^ (length point / 2) + 3)%nat /\ (k <= length tape)%nat /\ hp_reval pf = nth 0 tape f0.
+Proof. exact @hyrax_open_draws. Qed.
+Print Assumptions C07_hyrax_open_draws.
+
+Theorem C07_hyrax_fresh_masks_per_polynomial :
+  forall (FO : FieldOps) keylen point sts otape chal pfs ot' ch',
+    h_open_loop keylen point sts otape chal = Ok (pfs, ot', ch') ->
+    ot' = skipn (length sts * (2 ^ (length point / 2) + 3)) otape /\ length pfs = length sts.
+Proof. exact @hyrax_open_loop_draws. Qed.
+Print Assumptions C07_hyrax_fresh_masks_per_polynomial.
+
+Theorem C07_ipa_commit_draws :
+  forall (FO : FieldOps) d lp rng cm st n,
+    i_commit1 d lp rng = Ok (cm, st, n) ->
+    match lp_hiding lp, rng with
+    | None, _ => n = O /\ ir_rand st = f0 /\ ir_shifted st = None
+    | Some _, None => False
+    | Some _, Some tape =>
+      match lp_bound lp with
+      | Some _ => n = 2%nat /\ ir_rand st = nth 0 tape f0 /\ ir_shifted st = Some (nth 1 tape f0) /\ (2 <= length tape)%nat
+      | None => n = 1%nat /\ ir_rand st = nth 0 tape f0 /\ ir_shifted st = None /\ (1 <= length tape)%nat
+      end
+    end.
+Proof. exact @ipa_commit_draws. Qed.
+Print Assumptions C07_ipa_commit_draws.
